@@ -532,9 +532,12 @@ static bool read_lead(zckCtx *zck) {
         hash_reset(&(zck->hash_type));
         return false;
     }
-    if(header_length > SIZE_MAX) {
+    /* The total header size (lead plus header) must be representable: the sum
+     * is compared against the requested header length below */
+    if(header_length > SIZE_MAX - length - zck->hash_type.digest_size) {
         free(header);
-        set_error(zck, "Header length of %li invalid", header_length);
+        set_error(zck, "Header length of %llu invalid",
+                  (long long unsigned) header_length);
         hash_reset(&(zck->hash_type));
         return false;
     }
